@@ -201,8 +201,8 @@ def run(ck):
         "Coq 8.16.1 kernel; theorems of Properties/C16.v Closed under the global context",
         "PARTIAL: the exactly-once theorem is about the abstract stop-and-wait model (Link/Abp.v); that the composed literal models refine it is NOT proved -- it is "
         "checked by running the composed extracted models against the real CS101_Master/CS101_Slave on every script, and by the oracle on the real trace",
-        "Link/Cs101Queue.v is a literal transcription of cs101_queue.c (proved to refine the bounded drop-oldest FIFO); the composed model uses the FIFO specification for the "
-        "queues; the real queues are exercised through the public enqueue/poll API and compared entry by entry via the frames on the line",
+        "Link/Cs101Queue.v is a literal transcription of cs101_queue.c (proved to refine the bounded drop-oldest FIFO); the composed model runs this literal ring for every "
+        "class 1 / class 2 / master queue; the real queues are exercised through the public enqueue/poll API and compared via the full flag and the frames on the line",
         "channel model: whole frames lost / duplicated / delayed (by scheduling) on an otherwise error-free line; no reordering, no duplication of answers (unnumbered ACK)",
         "extraction: ExtrOcamlBasic only; the composition of the station step functions is OCaml code in driver/d_link.ml",
     ]
@@ -243,8 +243,8 @@ def run(ck):
             if sid in meta:
                 return
             # every lost frame can cost one acknowledgement / repeat / link-state timeout: give the line time to settle
-            scripts.append((sid, L.exchange(mode, al, sc, ns, acts, rounds + 25 * len(lose) + 3 * len(info) * ns, tick, q1=q1, q2=q2, mq=mq, lose=lose, tls=400)))
-            meta[sid] = dict(mode=mode, al=al, ns=ns, q1=q1, q2=q2, mq=mq, kind=kind, lose=lose, settled=True, quiet_rounds=int(rounds * 0.3))
+            scripts.append((sid, L.exchange(mode, al, sc, ns, acts, rounds + min(25 * len(lose), 300) + 3 * len(info) * ns, tick, q1=q1, q2=q2, mq=mq, lose=lose, tls=400)))
+            meta[sid] = dict(mode=mode, al=al, ns=ns, q1=q1, q2=q2, mq=mq, kind=kind, lose=lose, settled=len(lose) <= 12, quiet_rounds=int(rounds * 0.3))
             infos[sid] = info
         add("none")
         step = 1 if not quick else max(1, nlast // 40)
